@@ -176,16 +176,39 @@ def coq_pipeline(rsmi, explicit_hydrogen=False, opts=False):
 DECOY = "[CH3:91][CH2:92][CH2:93][CH:94]([OH:99])[CH2:95][CH2:96][c:97]1[cH:98][cH:100][cH:101][cH:102][cH:103]1"
 
 
-def obs_m2g(smiles, drop, use):
+def obs_m2g(smiles, drop, use, api="transform"):
+    """MolToGraph through every entry point that builds the six-attribute graph: transform (converter object used twice),
+    transform_store + .graph, the classmethod mol_to_graph (light-weight and detailed, projected on the six attributes),
+    and chem_converter.smiles_to_graph"""
     from synkit.IO.mol_to_graph import MolToGraph
     mol = sanitized_mol(smiles)
     if mol is None:
         return ["unparsable"]
-    conv = MolToGraph(node_attrs=NODE_ATTRS, edge_attrs=EDGE_ATTRS)
     try:
+        if api == "smiles_to_graph":
+            import synkit.IO.chem_converter as cc
+            g = cc.smiles_to_graph(smiles, drop, True, use)
+            return [E.obs_mgraph(g)] if g is not None else []
+        if api in ("light", "detailed"):
+            g = MolToGraph.mol_to_graph(mol, drop, api == "light", use)
+            if api == "detailed":
+                import networkx as nx
+                p = nx.Graph()
+                for n, d in g.nodes(data=True):
+                    p.add_node(n, **{k: d[k] for k in NODE_ATTRS if k in d})
+                for u, v, d in g.edges(data=True):
+                    p.add_edge(u, v, **{k: d[k] for k in EDGE_ATTRS if k in d})
+                g = p
+            return [E.obs_mgraph(g)]
+        conv = MolToGraph(node_attrs=NODE_ATTRS, edge_attrs=EDGE_ATTRS)
         # the converter object is used twice: first on a decoy molecule (state left behind must not leak into the second call)
         conv.transform(sanitized_mol(DECOY), drop_non_aam=False, use_index_as_atom_map=True)
-        g = conv.transform(mol, drop_non_aam=drop, use_index_as_atom_map=use)
+        if api == "store":
+            g = conv.transform_store(mol, drop_non_aam=drop, use_index_as_atom_map=use).graph
+            if conv.graph is not g:
+                return ["graph-property-not-stable"]
+        else:
+            g = conv.transform(mol, drop_non_aam=drop, use_index_as_atom_map=use)
     except ValueError:
         return []
     return [E.obs_mgraph(g)]
@@ -283,3 +306,61 @@ def explicit_h_rewrite(rsmi, rng, p_spectator=0.3):
         return apply(ma, plan_a) + ">>" + apply(mb, plan_b)
     except Exception:
         return None
+
+
+# ------------------------------------------------------------------ graph_to_rsmi(r, p, its=None | its) and GraphToMol options
+
+def obs_g2r(rsmi):
+    import synkit.IO.chem_converter as cc
+    G, H = cc.rsmi_to_graph(rsmi)
+    if G is None or H is None:
+        return []
+    out = []
+    for with_its in (False, True):
+        rec = []
+        orig = cc.GraphToMol
+
+        class Rec(orig):
+            def graph_to_mol(self, graph, *a, **k):
+                rec.append(graph.copy())
+                return orig.graph_to_mol(self, graph, *a, **k)
+        g, h = G.copy(), H.copy()          # implicit_hydrogen edits its argument in place (shallow copy): hand over copies
+        its = cc.ITSConstruction().ITSGraph(G, H) if with_its else None
+        cc.GraphToMol = Rec
+        try:
+            cc.graph_to_rsmi(g, h, its) if with_its else cc.graph_to_rsmi(g, h)
+        finally:
+            cc.GraphToMol = orig
+        if len(rec) != 2:
+            return ["unexpected-call-pattern", len(rec)]
+        out += [E.obs_mgraph(rec[0]), E.obs_mgraph(rec[1])]
+    return out
+
+
+def coq_g2r(rsmi):
+    a, b = rsmi.split(">>")
+    ma, mb = sanitized_mol(a), sanitized_mol(b)
+    if ma is None or mb is None:
+        return None
+    return "run_g2r %s %s" % (coq_rmol(read_rmol(ma)), coq_rmol(read_rmol(mb)))
+
+
+def obs_g2m(gjson, ibo, uhc):
+    from synkit.IO.graph_to_mol import GraphToMol
+    try:
+        mol = GraphToMol().graph_to_mol(E.to_nx(gjson), ibo, False, uhc)          # positional: ignore_bond_order, sanitize, use_h_count
+    except Exception:
+        return []
+    ats = []
+    for a in mol.GetAtoms():
+        ats.append([E.elem_code(a.GetSymbol()), int(a.GetFormalCharge()), int(a.GetAtomMapNum()),
+                    int(a.GetNumExplicitHs()) if a.GetNoImplicit() else -1])
+    bs = []
+    for b in mol.GetBonds():
+        i, j, c = b.GetBeginAtomIdx(), b.GetEndAtomIdx(), int(b.GetBondType())
+        bs += [[ats[i], ats[j], c], [ats[j], ats[i], c]]
+    return [[S(ats), S(bs)]]
+
+
+def coq_g2m(gjson, ibo, uhc):
+    return "run_g2m %s %s %s" % (E.cb(ibo), E.cb(uhc), E.coq_mgraph(gjson))
